@@ -1,5 +1,6 @@
 import LeptosModel.Model.Wire
 import LeptosModel.Model.Async
+import LeptosModel.Model.AsyncPause
 /-! Line-protocol driver for C10 (see harness/hx-c10/src/bin/c10.rs for the op grammar). -/
 open Leptos Leptos.Wire Leptos.Async
 
@@ -185,8 +186,9 @@ def stepOp (s : State) (w : List String) : Option State :=
 
 `spawn_derived!`: `let update_if_necessary = !owner.paused() && needs_rerun(..)`: while the derived's owner is paused the
 task still consumes its notification but does not look at its sources (its `Dirty` state stays) and does not run the
-fetcher; it looks again when it is NOTIFIED again after `resume`.  This lives in the driver, not in `Model/Async.step`:
-the theorems of C10 are about histories without `pause` (a paused history leaves `Inv`: `Dirty` with the channel flag
+fetcher; it looks again when it is NOTIFIED again after `resume`.  The paused poll is `Model/AsyncPause.pollDPaused`
+(an extension next to `Model/Async.step`; state-level theorems in Theorems/C10Pause.lean); the history-level theorems
+of Theorems/C10.lean are about histories without `pause` (a paused history leaves `Inv`: `Dirty` with the channel flag
 cleared).  Driven after the first run only, without effect, manual writes and guards. -/
 
 structure DS where
@@ -199,27 +201,15 @@ structure DS where
   /-- the subscriber peeks (`dp` / `dq`): no reloads are driven -/
   peek : Bool := false
 
-/-- the poll of the derived's task while its owner is paused (after the first run) -/
-def pollDPaused (s : State) : State :=
-  let s := { s with dWoken := false }
-  match s.pc with
-  | .start => pollD s
-  | .waiting => { s with reg := true, chan := false }
-  | .fetching =>
-    if s.tickFired = true ∧ s.curStatus = .ready then
-      let s := applyResult s
-      { s with reg := true, chan := false }
-    else { s with dataReg := s.tickFired }
-
-def pollNthP (d : DS) (j : Nat) : DS :=
-  let r := readyList d.s
-  match r[j % r.length]? with
-  | some .d => if d.paused then { d with s := pollDPaused d.s, missed := true } else { d with s := pollNth d.s j }
-  | _ => { d with s := pollNth d.s j }
+/-- `poll j`: the model's step under a paused / running owner (`Model/AsyncPause.pollNthP`, `pollDPaused`:
+theorems in Theorems/C10Pause.lean) -/
+def pollNthDS (d : DS) (j : Nat) : DS :=
+  let r := Leptos.Async.pollNthP d.paused d.s j
+  { d with s := r.1, missed := d.missed || r.2 }
 
 def runIdleP : Nat → DS → DS
   | 0, d => d
-  | n + 1, d => if (readyList d.s).isEmpty then d else runIdleP n (pollNthP d 0)
+  | n + 1, d => if (readyList d.s).isEmpty then d else runIdleP n (pollNthDS d 0)
 
 def obsP (d : DS) : String :=
   let o := obs d.s
@@ -235,7 +225,7 @@ def stepOpP (d : DS) (w : List String) : Option DS :=
   match w with
   | ["pause"] => some { d with paused := true, usedPause := true }
   | ["resume"] => some { d with paused := false }
-  | ["poll", j] => j.toNat?.map fun j => pollNthP d j
+  | ["poll", j] => j.toNat?.map fun j => pollNthDS d j
   | ["idle"] => some (runIdleP (4 * s.aws.length + 16) d)
   | ["set", i, _] =>
     (stepOp s w).map fun s' =>
